@@ -54,6 +54,9 @@ def enclosing_tests(fdef, target):
 
 def run(report, index, tier):
     M = models(index)
+    from .c20 import guard_tokens, guard_transcriptions
+    guard_tokens(report, index, M)
+    guard_transcriptions(index, M, report, depth=2)
     g, A, am = M.grammar, M.actions, M.astmodel
     lm = index.need(LEX)
     pm = index.need(PAR)
